@@ -159,6 +159,9 @@ ITEMS = {
          'let mut en__: usize = 0; while en__ < self.rows.len() { let row = &self.rows[en__]; let index = en__; en__ = en__ + 1;', 1),
         ('re', r'for \(index, _\) in indices_and_rows_to_delete\.iter\(\)\.rev\(\) \{',
          'let mut rv__: usize = indices_and_rows_to_delete.len(); while rv__ > 0 { rv__ = rv__ - 1; let index = &indices_and_rows_to_delete[rv__].0;', 1),
+        # R13: `v.last().is_some_and(|(index, _)| EXPR)` (closure with a tuple pattern) -> the match it abbreviates, on the last element by position
+        ('re', r'(?s)indices_and_rows_to_delete\s*\.last\(\)\s*\.is_some_and\(\|\((\w+), _\)\| ([^;]*?)\);',
+         r'(if indices_and_rows_to_delete.len() > 0 { let \1 = &indices_and_rows_to_delete[indices_and_rows_to_delete.len() - 1].0; \2 } else { false });', None),
         ('re', r'for \(_, deleted_row\) in &indices_and_rows_to_delete \{',
          'let mut dl__: usize = 0; while dl__ < indices_and_rows_to_delete.len() { let deleted_row = &indices_and_rows_to_delete[dl__].1; dl__ = dl__ + 1;', 1),
     ],
